@@ -138,13 +138,14 @@ def check_dask(case, ctx):
 
 
 @st.composite
-def batch_case(draw):
+def batch_case(draw, large=False):
     n = draw(st.integers(2, 5))
     members = []
     for _ in range(n):
-        fg = draw(gen.freq_grid(3, 12))
-        dg = draw(gen.dir_grid(3, 16, spacing=("whole",)))
-        nt = draw(st.integers(1, 4))
+        # large members have more than 500 bins (realistic model grids, e.g. 25 x 36) and more tasks in flight
+        fg = draw(gen.freq_grid(20, 32)) if large else draw(gen.freq_grid(3, 12))
+        dg = draw(gen.dir_grid(24, 36, spacing=("whole",))) if large else draw(gen.dir_grid(3, 16, spacing=("whole",)))
+        nt = draw(st.integers(6, 12)) if large else draw(st.integers(1, 4))
         members.append(dict(fg=fg, dg=dg, dims=[["time", nt]], specs=[draw(gen.spectrum(kinds=("multinoisy", "multi", "sparse"))) for _ in range(min(nt, 3))],
                             method=draw(st.sampled_from(["ptm3", "ptm1", "ptm2"])), k=draw(st.integers(1, 4)), ihmax=draw(st.sampled_from([5, 100])),
                             winds=[dict(wspd=draw(st.floats(1, 35)), wdir=draw(st.floats(0, 360)), dpt=20.0)]))
@@ -179,7 +180,7 @@ def check_batch(case, ctx):
             raise Violation("threaded-differs", msg)
     ctx.evals = len(lazy)
     ctx.nt(len(shapes) >= 2)
-    ctx.label("workers=%d" % case["workers"], "shapes=%d" % len(shapes))
+    ctx.label("workers=%d" % case["workers"], "shapes=%d" % len(shapes), "bins>500" if any(a * b > 500 for a, b in shapes) else "bins<=500")
     ctx.show(dict(workers=case["workers"], shapes=sorted(shapes), methods=[m["method"] for m in case["members"]]))
 
 
@@ -188,4 +189,5 @@ def facets():
         Facet("chunked", dask_case(), check_dask, quick=300, thorough=12000, qshards=10),
         Facet("chunked_peaks", dask_case(["tp", "tp_discrete", "fp", "dpm", "dpspr", "alpha", "gamma", "scale_by_hs", "stats_list", "stats_band", "fit_jonswap", "ptm1_track", "dp"]), check_dask, quick=120, thorough=6000, qshards=4),
         Facet("threaded_batch", batch_case(), check_batch, quick=60, thorough=3000, qshards=2),
+        Facet("threaded_batch_large", batch_case(large=True), check_batch, quick=24, thorough=800, qshards=4),
     ]
